@@ -414,3 +414,78 @@ func VP_C06_read_after_failure() {
 	}
 	vp.Cover("end")
 }
+
+// NBT fields holding empty containers - nil or empty slices and maps are how Go
+// spells an empty list, array or compound - are written as those (not as "no
+// NBT") and read back into a destination that held something else.
+func VP_C06_nbtfield_empty() {
+	switch vp.Choice(5) {
+	case 0:
+		var v []int32 // nil slice: an empty int array
+		vpCheckWrite(NBT(v), []byte{11, 0, 0, 0, 0})
+		d := []int32{1, 2, 3}
+		vpCheckRead(NBT(&d), []byte{11, 0, 0, 0, 0})
+		vp.Assert(len(d) == 0, "NBT field round trip (empty int array into a used destination)")
+	case 1:
+		var v map[string]int8 // nil map: an empty compound
+		vpCheckWrite(NBT(v), []byte{10, 0})
+	case 2:
+		v := []string{} // empty list
+		vpCheckWrite(NBT(v), []byte{9, 8, 0, 0, 0, 0})
+	case 3:
+		var v []byte
+		vpCheckWrite(NBT(v), []byte{7, 0, 0, 0, 0})
+		d := []byte{9}
+		vpCheckRead(NBT(&d), []byte{7, 0, 0, 0, 0})
+		vp.Assert(len(d) == 0, "NBT field round trip (empty byte array into a used destination)")
+	default:
+		// an NBT field between two other fields, flag from a func: counts add up
+		x := vp.Byte()
+		var v []int64
+		has := vp.Bool()
+		ref := []byte{x}
+		if has {
+			ref = append(ref, 12, 0, 0, 0, 0)
+		}
+		ref = append(ref, 0, 7)
+		vpCheckWrite(Tuple{UnsignedByte(x), Opt{Has: func() bool { return has }, Field: NBT(v)}, UnsignedShort(7)}, ref)
+	}
+	vp.Cover("end")
+}
+
+// Scan composes the fields in order, all of them: a payload that ends on a
+// field boundary is an error for the remaining fields (reported with the index
+// of the field), and a trailing field that consumes nothing still takes effect.
+func VP_C06_scan_boundaries() {
+	a, b := VarInt(vp.Int32()), Short(vp.Int16())
+	s := String(vp.Bytes(vp.Choice(3)))
+	var full []byte
+	full = append(full, vpVarIntRef(int32(a))...)
+	cutA := len(full)
+	full = append(full, vpBE(uint64(uint16(b)), 2)...)
+	cutB := len(full)
+	full = append(full, vpVarIntRef(int32(len(s)))...)
+	full = append(full, s...)
+	var da VarInt
+	var db Short
+	var ds String
+	switch vp.Choice(4) {
+	case 0:
+		err := Packet{ID: 1, Data: full}.Scan(&da, &db, &ds)
+		vp.Assert(err == nil && da == a && db == b && ds == s, "composition round trip")
+	case 1:
+		err := Packet{ID: 1, Data: full[:cutA]}.Scan(&da, &db, &ds)
+		vp.Assert(err != nil, "a payload ending on a field boundary is an error for the remaining fields")
+	case 2:
+		err := Packet{ID: 1, Data: full[:cutB]}.Scan(&da, &db, &ds)
+		vp.Assert(err != nil, "a payload ending on a field boundary is an error for the remaining fields")
+	default:
+		// trailing PluginMessageData: takes everything that is left, even nothing
+		rest := vp.Bytes(vp.Choice(3))
+		pm := PluginMessageData(vp.Bytes(2)) // the destination held an earlier payload
+		err := Packet{ID: 1, Data: append(append([]byte{}, full...), rest...)}.Scan(&da, &db, &ds, &pm)
+		vp.Assert(err == nil && da == a && ds == s, "composition round trip")
+		vp.Assert(string(pm) == string(rest), "a trailing field that consumes nothing still takes effect")
+	}
+	vp.Cover("end")
+}
